@@ -10,7 +10,10 @@ def tu_check(tu):
     sf = refs.setitem_fresh(tu)
     sc = splitcommit.analyse_tu(tu)
     nr = alloc.analyse_null_results(tu)
-    r["findings"] = r["findings"] + c["findings"] + sp["findings"] + sf["findings"] + sc["findings"] + nr["findings"]
+    from ..rules import shiftbounds
+    sb = shiftbounds.analyse_tu(tu)
+    r["findings"] = r["findings"] + c["findings"] + sp["findings"] + sf["findings"] + sc["findings"] + nr["findings"] + sb["findings"]
+    r["stats"]["shift_bounds_decided"] = sb["stats"]["shift_bounds_decided"]
     r["stats"]["null_result_sites"] = nr["stats"]["null_result_sites"]
     r["stats"]["setitem_sites"] = sf["sites"]
     r["stats"]["split_sites"] = sc["stats"]["split_call_sites"] + sc["stats"]["split_commit_stores"]
@@ -21,7 +24,7 @@ def tu_check(tu):
 
 def run(tier="quick", seed=0, use_cache=True):
     res = engine.Result("C16")
-    res.rules = ["LOCAL-REF", "CURSOR-HOLD", "SLOT-PAIR", "RELEASE-ATTACHED", "SETITEM-FRESH", "SPLIT-COMMIT", "NULL-RESULT"]
+    res.rules = ["LOCAL-REF", "CURSOR-HOLD", "SLOT-PAIR", "RELEASE-ATTACHED", "SETITEM-FRESH", "SPLIT-COMMIT", "NULL-RESULT", "SHIFT-BOUNDS"]
     res.explanation = (
         "Ownership dataflow (alias classes with an owned-reference count, "
         "NULL-ness refinement, out-parameter and returns-new-reference "
@@ -50,7 +53,7 @@ def run(tier="quick", seed=0, use_cache=True):
         "to containers the function created empty. SPLIT-COMMIT: a split "
         "function has no failure exit once the new sibling's len is set (its "
         "destructor would release entries the original node still owns), and "
-        "its caller none before the sibling is stored as a child. NULL-RESULT: the result of a repository function that has a `return NULL` path (a node that cannot be activated, an empty tree) is tested before it is dereferenced or passed to a NULL-intolerant API, on every path (the ALLOC-CHECKED dataflow of C17 over the inferred set of may-return-NULL functions). Decides the local half of 'exactly one "
+        "its caller none before the sibling is stored as a child. NULL-RESULT: the result of a repository function that has a `return NULL` path (a node that cannot be activated, an empty tree) is tested before it is dereferenced or passed to a NULL-intolerant API, on every path; SHIFT-BOUNDS: every memmove within one keys / values / data array reads only entries below the length the node had on entry (affine offsets, the net len-- / ++len effect on the path taken into account) (the ALLOC-CHECKED dataflow of C17 over the inferred set of may-return-NULL functions). Decides the local half of 'exactly one "
         "reference per stored object / no leak on any path'; ownership of "
         "node fields across functions and out-of-bounds accesses need a "
         "sanitizer run and are not decided.")
@@ -78,6 +81,8 @@ def run(tier="quick", seed=0, use_cache=True):
     res.count("CURSOR-HOLD", cur_ev)
     slot = sum(r["stats"]["slot_stores"] for r in out.values())
     res.floor("call sites of may-return-NULL repository functions (OO)", oo["null_result_sites"], 45)
+    res.floor("in-place array shifts with a decided bound (OO)", oo["shift_bounds_decided"], 4)
+    res.count("SHIFT-BOUNDS", sum(r["stats"]["shift_bounds_decided"] for r in out.values()))
     res.count("NULL-RESULT", sum(r["stats"]["null_result_sites"] for r in out.values()))
     res.floor("key/value slot copies in object families", slot, 60)
     res.count("SLOT-PAIR", slot)
